@@ -167,8 +167,17 @@ def store (ctx : Ctx) (key : Option Val) (payload : Val) : Except Exc Ctx :=
       | _ => .error (outOfDomain "destination key is not a string")
     else atRoot
 
-/-- `fetch*.run_step`. -/
-def fetch {τ} (f : Format) (c : Codec τ) (fuel : Nat) (ctx : Ctx) (files : Files τ) : Except Exc Ctx :=
+/-- Whether `len(payload)` works: not for a top-level None/bool/int/float. -/
+def hasLen : Val → Bool
+  | .none | .bool _ | .int _ | .flt _ _ => false
+  | _ => true
+
+/-- `fetch*.run_step`. `lenGuard = true` is the code as it is now (fix 37680ff: the closing log
+    statement takes `len(payload)` only of a `Sized` payload); `false` is the code before that fix,
+    where a scalar top level raised `TypeError` after the key had been set — kept for the witness
+    theorem `fetch_scalar_raises_pre_fix`. -/
+def fetchWith {τ} (lenGuard : Bool) (f : Format) (c : Codec τ) (fuel : Nat) (ctx : Ctx) (files : Files τ) :
+    Except Exc Ctx :=
   match fetchArgs f fuel ctx with
   | .error e => .error e
   | .ok (path, key) =>
@@ -177,7 +186,16 @@ def fetch {τ} (f : Format) (c : Codec τ) (fuel : Nat) (ctx : Ctx) (files : Fil
     | some t =>
       match c.dec t with
       | none => .error ⟨"DecodeError", path⟩
-      | some payload => store ctx key payload
+      | some payload =>
+        match store ctx key payload with
+        | .error e => .error e
+        | .ok ctx' =>
+          if lenGuard || hasLen payload then .ok ctx'
+          else .error (typeError "object has no len()")   -- raised by the closing log statement
+
+/-- `fetch*.run_step` as it is now. -/
+def fetch {τ} (f : Format) (c : Codec τ) (fuel : Nat) (ctx : Ctx) (files : Files τ) : Except Exc Ctx :=
+  fetchWith true f c fuel ctx files
 
 /-- `pypyr.parser.{json,yaml,toml}file.get_parsed_context`: the parsed file must be a mapping
     (json/yaml check it, toml is one by construction); it becomes the initial context. -/
